@@ -34,12 +34,16 @@ SrcResolved == IF src # Unspec THEN src ELSE IF dimgiven /\ dim = 1 THEN 0 ELSE 
 ScalarNoise == noise = "scalar" \/ (noise = "default" /\ (~dimgiven \/ dim = 1))
 LoadOK == /\ (NameIsKindOK \/ iname = "kind")
           /\ (UniSourcesOK \/ ~(dim = 1 /\ SrcResolved >= 1))
-ResaveSame == ScalarShapeOK \/ ~(ScalarNoise /\ origin = "fit")
+\* origins: "fit" (one averaging iteration after the memory-less phase), "fit_mem2" / "fit_mem3" (two / three averaging
+\* iterations: the parameters are then averages, not the last draws), "hand" (hand-written file), "edited" (a fitted model
+\* object whose parameters are replaced by hand-written values through load_parameters before saving)
+FromFit == origin \in {"fit", "fit_mem2", "fit_mem3"}
+ResaveSame == ScalarShapeOK \/ ~(ScalarNoise /\ FromFit)
 Expected == [pop_at_mode |-> TRUE, save_ok |-> TRUE, load_ok |-> LoadOK, src_resolved |-> SrcResolved,
              same_params |-> LoadOK, same_hyper |-> LoadOK, same_traj |-> LoadOK, resave_same |-> (LoadOK /\ ResaveSame)]
 
 \* the property: every configuration survives save / load and re-save
 SurvivesSaveLoad == LoadOK /\ ResaveSame
 \* as built: exactly the three named deviations break it
-SurvivesExceptNamed == SurvivesSaveLoad \/ iname = "custom" \/ (dim = 1 /\ SrcResolved >= 1) \/ (ScalarNoise /\ origin = "fit")
+SurvivesExceptNamed == SurvivesSaveLoad \/ iname = "custom" \/ (dim = 1 /\ SrcResolved >= 1) \/ (ScalarNoise /\ FromFit)
 =============================================================================
